@@ -6,7 +6,8 @@
 (*     each deleted or replaced by a fresh leaf, a fresh small tree, or an *)
 (*     existing subtree of the input (which then occurs twice);            *)
 (*   - 0..MaxStKeys structural keys (shapes of subtrees of the input),     *)
-(*     each replaced by a fresh leaf, by a tree that CONTAINS ITS OWN KEY, *)
+(*     each deleted, or replaced by a fresh leaf, by a tree that CONTAINS  *)
+(*     ITS OWN KEY,                                                        *)
 (*     by a tree that contains the OTHER key, or by an existing subtree;   *)
 (*   - with or without a declaration to introduce.                         *)
 (* The final state carries the forest, the simplification and the result   *)
@@ -51,13 +52,14 @@ IdRepl(kind, i, pos) ==
       [] kind = "sub"  -> Bump(D0[1])  \* the first top-level expression itself
 
 StRepl(kind, i, key, other) ==
-    CASE kind = "leaf"  -> LeafN(160 + i, <<"z">>)
+    CASE kind = "del"   -> Del   \* every occurrence of the shape is deleted
+      [] kind = "leaf"  -> LeafN(160 + i, <<"z">>)
       [] kind = "own"   -> Around(i, key)
       [] kind = "other" -> Around(i, other)
       [] kind = "sub"   -> Bump(D0[Len(D0)])   \* the last node in pre-order
 
 IdKinds == {"del", "leaf", "tree", "sub"}
-StKinds == {"leaf", "own", "other", "sub"}
+StKinds == {"del", "leaf", "own", "other", "sub"}
 
 ShapesOf(S) == {ShapeN(D0[i]) : i \in S}
 
